@@ -196,6 +196,7 @@ pub fn cmd_replay(path: &str) -> i32 {
         "game" => replay_ops(p(prop), &file.start(), &file.ops()).map(|o| o.map(|f| (f.monitor, f.detail))),
         "sym" => crate::sym::replay(&file),
         "text" => crate::textfaults::replay(&file),
+        "codec" => crate::textfaults::replay_codec(),
         "stack" => crate::stack::replay(&file),
         other => Err(format!("unknown replay mode {}", other)),
     };
